@@ -70,7 +70,7 @@ where
             self.l3s.push_back(T::zero());
             return;
         } else {
-            let last = self.l0s.len() - 1;
+            let last = self.l0s.len();
             self.l0s.push_back(
                 (T::one() - self.gamma) * val + self.gamma * *self.l0s.get(last - 1).unwrap(),
             );
